@@ -151,7 +151,7 @@ func NewBuild(variants ...string) *Build {
 	os.WriteFile(filepath.Join(scratch, "owner.pid"), []byte(fmt.Sprint(os.Getpid())), 0o644)
 	onExit(func() { os.RemoveAll(scratch) })
 	b := &Build{Scratch: scratch, Repo: filepath.Join(scratch, "repo"), Bins: map[string]string{}, Tree: treeFingerprint()}
-	if out, err := run("/", os.Environ(), "rsync", "-a", "--exclude=.git", "--exclude=/examples", "--exclude=/cmd",
+	if out, err := run("/", os.Environ(), "rsync", "-a", "--exclude=.git", "--exclude=/examples", "--exclude=/cmd", "--exclude=/_mut",
 		"--exclude=*_test.go", repoDir+"/", b.Repo+"/"); err != nil {
 		infraFail("rsync: %v\n%s", err, out)
 	}
@@ -179,6 +179,13 @@ func NewBuild(variants ...string) *Build {
 		if strings.HasSuffix(e.Name(), ".go") {
 			data, _ := os.ReadFile(filepath.Join(verifHome, "sim", "rt", e.Name()))
 			os.WriteFile(filepath.Join(rtDst, e.Name()), data, 0o644)
+		}
+	}
+	os.MkdirAll(filepath.Join(rtDst, "vsync"), 0o755)
+	if vs, err := os.ReadDir(filepath.Join(verifHome, "sim", "rt", "vsync")); err == nil {
+		for _, e := range vs {
+			data, _ := os.ReadFile(filepath.Join(verifHome, "sim", "rt", "vsync", e.Name()))
+			os.WriteFile(filepath.Join(rtDst, "vsync", e.Name()), data, 0o644)
 		}
 	}
 	os.WriteFile(filepath.Join(rtDst, "sites_gen.go"),
